@@ -166,6 +166,27 @@ def mutations(frame):
             for nc, cl in ((0, '0'), (count - 1, 'n-1'), (count + 1, 'n+1'), (2 ** 31 - 1, 'max')):
                 if nc >= 0 and nc != count:
                     yield 'batch-count=%s' % cl, frame[:vs] + struct.pack('!i', nc) + frame[vs + 4:]
+        # --- a structure whose contents are not items at all (0xFF where item headers belong; every
+        #     length field around it stays consistent): no decoder can decode it - one that accepts
+        #     the frame has skipped it
+        if n['type'] == ttlv.STRUCTURE and n['length'] >= 8 and depth >= 2:
+            yield 'garbage-content|%s' % where, frame[:vs] + b'\xff' * (ve - vs) + frame[ve:]
+        # --- the operation of a batch item replaced by every other operation of the enumeration (the
+        #     payload then belongs to another operation), alone and with the payload's contents garbage
+        if n['tag'] == T.OPERATION.value and n['type'] == ttlv.ENUMERATION:
+            cur = int.from_bytes(frame[vs:vs + 4], 'big')
+            pay = [x for x in idx if x['path'][:-1] == n['path'][:-1] and x['tag'] == T.REQUEST_PAYLOAD.value]
+            for op in list(E.Operation) + [0, 0x7fffffff]:
+                ov = op if isinstance(op, int) else op.value
+                on = 'invalid%d' % ov if isinstance(op, int) else op.name
+                if ov == cur:
+                    continue
+                m = frame[:vs] + struct.pack('!I', ov) + frame[vs + 4:]
+                yield 'operation=%s|%s' % (on, where), m
+                if pay and pay[0]['length'] >= 8:
+                    p_ = pay[0]
+                    yield 'operation=%s+garbage-content|%s' % (on, where), \
+                        m[:p_['value_start']] + b'\xff' * (p_['value_end'] - p_['value_start']) + m[p_['value_end']:]
     for v in ((0, 9), (1, 5), (2, 1), (3, 0), (1, 2 ** 31 - 1)):
         yield 'version=%d.%d' % v, W.patch_version(frame, v)
 
@@ -369,6 +390,9 @@ def _mut_worker(task):
             elif envelope_malformed(m):
                 short = envelope_malformed(m)
                 part.count('envelope_malformed_mutants')
+            elif 'garbage-content' in label.split('|')[0]:
+                short = 'the contents of a structure are not TTLV items'
+                part.count('garbage_content_mutants')
             sig = judge_stream(m + probe_frame(), '%s|%s' % (label, cname), part, expect_probe=True,
                                ctx={'corpus': cname, 'mutation': label}, undecodable=(0,) if short else ())
             part.count('mutants')
